@@ -1017,14 +1017,15 @@ Proof.
     unfold Recds in *. rewrite Forall_forall in *. intros d Hd. apply (Recd_same f); auto.
 Qed.
 
-Lemma extract_keeps wd pres cwd dp dirName : forall es f f' ok ts dirs,
+Lemma extract_keeps wd pres cwd dp dirName trunc : forall es f f' ok ts dirs,
   Inv wd f -> inside wd dp = true -> RealD f [] dp ->
   Recds f dirs -> Forall (fun d => inside wd (fst d) = true) dirs ->
-  extract cfg_fixed pres cwd dp dirName f es ts dirs = (f', ok) ->
+  extract cfg_fixed pres cwd dp dirName f es ts dirs trunc = (f', ok) ->
   Keeps wd f f'.
 Proof.
   induction es as [|e es IH]; intros f f' ok ts dirs I Hd HR HD Hin H.
-  - cbn [extract] in H. destruct (restore_dirs pres f dirs []) as [f1|] eqn:R; injection H as <- _.
+  - cbn [extract] in H. destruct trunc; [injection H as <- _; now apply Keeps_refl|].
+    destruct (restore_dirs pres f dirs []) as [f1|] eqn:R; injection H as <- _.
     + eapply restore_dirs_keeps; eauto.
     + now apply Keeps_refl.
   - cbn [extract] in H.
@@ -1140,9 +1141,9 @@ Proof.
     rewrite (write_at_real _ wd w 438 HRwd) in H. injection H as <- _. now apply Keeps_refl.
 Qed.
 
-Lemma push_dir_keeps wd pres cwd s title ts es s' ok :
+Lemma push_dir_keeps wd pres cwd s title ts es how s' ok :
   Inv wd (st_fs s) ->
-  push_dir cfg_fixed pres wd cwd s title ts es = (s', ok) ->
+  push_dir cfg_fixed pres wd cwd s title ts es how = (s', ok) ->
   Keeps wd (st_fs s) (st_fs s').
 Proof.
   intros I H. unfold push_dir in H.
@@ -1158,10 +1159,11 @@ Proof.
   destruct (ensure_write_dir cfg_fixed wd (st_fs s) (wd ++ rel) (Nms (wd ++ rel))) as [f1|] eqn:M.
   2:{ injection H as <- _. now apply Keeps_refl. }
   destruct (ensure_write_dir_below wd _ rel _ f1 I M) as (K1 & R1).
-  destruct (extract cfg_fixed pres cwd (wd ++ rel) title f1 es ts []) as [f2 ok2] eqn:EX.
+  destruct (how =? 1)%N; [injection H as <- _; exact K1|].
+  destruct (extract cfg_fixed pres cwd (wd ++ rel) title f1 es ts [] (how =? 2)%N) as [f2 ok2] eqn:EX.
   injection H as <- _. simpl.
   eapply Keeps_trans; [exact K1|].
-  apply (extract_keeps wd pres cwd (wd ++ rel) title es f1 f2 ok2 ts [] (proj1 K1) Hcl R1 (Forall_nil _) (Forall_nil _) EX).
+  apply (extract_keeps wd pres cwd (wd ++ rel) title _ es f1 f2 ok2 ts [] (proj1 K1) Hcl R1 (Forall_nil _) (Forall_nil _) EX).
 Qed.
 
 (* restoreDuplicates: every restored layer is an ordinary named-blob push in the current tree *)
@@ -1187,7 +1189,7 @@ Lemma push_keeps wd pres cwd s o s' ok :
   push cfg_fixed pres wd cwd s o = (s', ok) ->
   Keeps wd (st_fs s) (st_fs s').
 Proof.
-  intros I H. unfold push in H. destruct o as [t c|t ts es|layers].
+  intros I H. unfold push in H. destruct o as [t c|t ts es|layers|how t ts es].
   - destruct t as [|t0 tt].
     + destruct ((c =? 0)%N || existsb (str_eqb [0%N; c]) (st_names s)); injection H as <- _; now apply Keeps_refl.
     + eapply push_blob_keeps; eauto.
@@ -1197,6 +1199,9 @@ Proof.
   - destruct (existsb (str_eqb (manifest_marker layers)) (st_names s)).
     + injection H as <- _. now apply Keeps_refl.
     + apply (restore_layers_keeps wd layers (mkStore (st_fs s) (manifest_marker layers :: st_names s) (st_d2p s)) s' ok I H).
+  - destruct t as [|t0 tt].
+    + injection H as <- _. now apply Keeps_refl.
+    + eapply push_dir_keeps; eauto.
 Qed.
 
 Lemma pushes_keeps wd pres cwd : forall os s s' oks,
@@ -1235,12 +1240,14 @@ Lemma push_outside_title g pres wd cwd s o :
   inside wd (lex_loc wd (push_title o)) = false -> push_title o <> [] ->
   push g pres wd cwd s o = (s, false).
 Proof.
-  intros H Hne. unfold push. destruct o as [t c|t ts es|layers]; cbn [push_title] in *; try contradiction;
-    (destruct t as [|t0 tt]; [contradiction|]).
+  assert (D : forall t ts es how, t <> [] -> inside wd (lex_loc wd t) = false ->
+              push_dir g pres wd cwd s t ts es how = (s, false)).
+  { intros t ts es how _ Ho. unfold push_dir. destruct (existsb (str_eqb t) (st_names s)); [reflexivity|].
+    destruct (write_path g wd t) as [raw|] eqn:EW; [|reflexivity].
+    apply write_path_lex in EW as [E _]. congruence. }
+  intros H Hne. unfold push. destruct o as [t c|t ts es|layers|how t ts es]; cbn [push_title] in *; try contradiction;
+    (destruct t as [|t0 tt]; [contradiction|]); try (apply D; assumption).
   - unfold push_blob. destruct (existsb (str_eqb (t0 :: tt)) (st_names s)); [reflexivity|].
-    destruct (write_path g wd (t0 :: tt)) as [raw|] eqn:EW; [|reflexivity].
-    apply write_path_lex in EW as [E _]. congruence.
-  - unfold push_dir. destruct (existsb (str_eqb (t0 :: tt)) (st_names s)); [reflexivity|].
     destruct (write_path g wd (t0 :: tt)) as [raw|] eqn:EW; [|reflexivity].
     apply write_path_lex in EW as [E _]. congruence.
 Qed.
@@ -1268,9 +1275,9 @@ Proof.
   apply entry_rel_inside in E. rewrite E, inside_app in He; [discriminate | exact Ht].
 Qed.
 
-Lemma extract_stops g pres cwd dp dirName e es2 : forall es1 f ts (dirs : list (path * N)),
+Lemma extract_stops g pres cwd dp dirName e es2 trunc : forall es1 f ts (dirs : list (path * N)),
   (forall f0 t, extract_entry g pres cwd dp dirName f0 e t = None) ->
-  snd (extract g pres cwd dp dirName f (es1 ++ e :: es2) ts dirs) = false.
+  snd (extract g pres cwd dp dirName f (es1 ++ e :: es2) ts dirs trunc) = false.
 Proof.
   induction es1 as [|e1 es1 IH]; intros f ts dirs H; cbn [app extract].
   - now rewrite H.
@@ -1406,9 +1413,11 @@ Proof.
   destruct (write_path g wd title) as [raw|] eqn:EW; [|reflexivity].
   apply write_path_lex in EW as [Hin ->].
   destruct (ensure_write_dir g wd (st_fs s) (lex_loc wd title) raw) as [f1|]; [|reflexivity].
-  pose proof (extract_stops g pres cwd (lex_loc wd title) title e es2 es1 f1 ts []
+  pose proof (extract_stops g pres cwd (lex_loc wd title) title e es2 false es1 f1 ts []
                 (fun f0 => entry_outside_rejected g pres wd cwd title f0 e Hin He)) as Hs.
-  destruct (extract g pres cwd (lex_loc wd title) title f1 (es1 ++ e :: es2) ts []) as [f2 ok]. simpl in *. exact Hs.
+  change (0 =? 1)%N with false. change (0 =? 2)%N with false. change (0 =? 3)%N with false. cbn [negb andb].
+  destruct (extract g pres cwd (lex_loc wd title) title f1 (es1 ++ e :: es2) ts [] false) as [f2 ok]. simpl in *.
+  rewrite Bool.andb_true_r. exact Hs.
 Qed.
 
 (* the working directory itself stays a real directory *)
@@ -1639,8 +1648,8 @@ Lemma extract_entry_cwd pres cwd1 cwd2 dp dirName f e t :
   extract_entry cfg_fixed pres cwd1 dp dirName f e t = extract_entry cfg_fixed pres cwd2 dp dirName f e t.
 Proof. reflexivity. Qed.
 
-Lemma extract_cwd pres cwd1 cwd2 dp dirName : forall es f ts dirs,
-  extract cfg_fixed pres cwd1 dp dirName f es ts dirs = extract cfg_fixed pres cwd2 dp dirName f es ts dirs.
+Lemma extract_cwd pres cwd1 cwd2 dp dirName trunc : forall es f ts dirs,
+  extract cfg_fixed pres cwd1 dp dirName f es ts dirs trunc = extract cfg_fixed pres cwd2 dp dirName f es ts dirs trunc.
 Proof.
   induction es as [|e es IH]; intros f ts dirs; [reflexivity|].
   cbn [extract]. rewrite (extract_entry_cwd pres cwd1 cwd2).
@@ -1650,12 +1659,14 @@ Qed.
 Lemma push_cwd pres wd cwd1 cwd2 s o :
   push cfg_fixed pres wd cwd1 s o = push cfg_fixed pres wd cwd2 s o.
 Proof.
-  destruct o as [t c|t ts es|layers]; try reflexivity.
-  destruct t as [|t0 tt]; [reflexivity|]. unfold push, push_dir.
-  destruct (existsb (str_eqb (t0 :: tt)) (st_names s)); [reflexivity|].
-  destruct (write_path cfg_fixed wd (t0 :: tt)); [|reflexivity].
-  destruct (ensure_write_dir cfg_fixed wd (st_fs s) (clean_abs l) l); [|reflexivity].
-  now rewrite (extract_cwd pres cwd1 cwd2).
+  assert (D : forall t ts es how, push_dir cfg_fixed pres wd cwd1 s t ts es how = push_dir cfg_fixed pres wd cwd2 s t ts es how).
+  { intros t ts es how. unfold push_dir.
+    destruct (existsb (str_eqb t) (st_names s)); [reflexivity|].
+    destruct (write_path cfg_fixed wd t); [|reflexivity].
+    destruct (ensure_write_dir cfg_fixed wd (st_fs s) (clean_abs l) l); [|reflexivity].
+    destruct (how =? 1)%N; [reflexivity|]. now rewrite (extract_cwd pres cwd1 cwd2). }
+  destruct o as [t c|t ts es|layers|how t ts es]; try reflexivity;
+    (destruct t as [|t0 tt]; [reflexivity|]); unfold push; apply D.
 Qed.
 
 Lemma pushes_cwd pres wd cwd1 cwd2 : forall os s,
@@ -1684,3 +1695,19 @@ Proof.
   destruct (walk fuel f nl [] (Nms p) false); simpl in *; try exact Logic.I; subst p0;
     try (destruct Wk as [L _]; split; [reflexivity | exact L]). reflexivity.
 Qed.
+
+(* failing archives: nothing unpacked / unpacked up to the break, modes not restored / everything
+   unpacked but the push fails *)
+Definition os_failing : list pushop :=
+  [PDirF 1 (b "g") [] [EDir (b "g/d") 448%N];
+   PDirF 2 (b "t") [] [EDir (b "t/d") 448%N; EReg (b "t/d/f") 7%N 420%N];
+   PDirF 3 (b "u") [] [EDir (b "u/d") 448%N]].
+
+Lemma failing_ok :
+  snd (run0 cfg_fixed os_failing) = [false; false; false] /\
+  view_at (fst (run0 cfg_fixed os_failing)) [b "r"; b "w"; b "g"] = VDir 493%N 0%N /\
+  view_at (fst (run0 cfg_fixed os_failing)) [b "r"; b "w"; b "g"; b "d"] = VNone /\
+  view_at (fst (run0 cfg_fixed os_failing)) [b "r"; b "w"; b "t"; b "d"] = VDir 493%N 0%N /\
+  view_at (fst (run0 cfg_fixed os_failing)) [b "r"; b "w"; b "t"; b "d"; b "f"] = VFile (enc 7 420) 0%N /\
+  view_at (fst (run0 cfg_fixed os_failing)) [b "r"; b "w"; b "u"; b "d"] = VDir 448%N 0%N.
+Proof. vm_compute. repeat split. Qed.
